@@ -98,7 +98,7 @@ FALSY_AND_HOSTILE = [None, {}, [], "", 0, False, "%s %d", "{0} {}", "a\nb\r\nc",
                      "protocolVersion", "2025-03-26", 3600, {"name": "", "version": 0}, {"": None}]
 SYNTAX_TEXT = ['{"jsonrpc":"2.0","id":1,"result":{}}', "[NaN]", ":Infinity,", '\n{"id":1}', "data: x", "id: 1", ":", "{}", "null", '"']
 FALSY_AND_HOSTILE = FALSY_AND_HOSTILE + SYNTAX_TEXT + [{t: t for t in SYNTAX_TEXT}]
-R_METHODS = [("verif/raises-keyerror", 1), ("verif/raises-unprintable", "u"), ("verif/raises-recursion", 0), ("ping", 3), ("ping", 0), ("ping", ""), ("nosuch/method", "x"), ("nosuch/method", 0), ("verif/raises", 1),
+R_METHODS = [("verif/raises-keyerror", 1), ("verif/raises-recursion", 0), ("ping", 3), ("ping", 0), ("ping", ""), ("nosuch/method", "x"), ("nosuch/method", 0), ("verif/raises", 1),
              ("verif/raises-empty", ""), ("verif/nonsense", 2), ("verif/silent", 5), ("verif/answers", 0),
              ("tools/list", 9), ("notifications/initialized", None), ("notifications/cancelled", None),
              ("verif/raises", None), ("notifications/initialized", 4), (None, 1), ("", 1)]
